@@ -13,6 +13,45 @@ fn main() {
         engine::install_panic_hook();
         std::process::exit(rssl_verif::props::worker(&args[2..]));
     }
+    if args.len() >= 3 && args[1] == "probe" {
+        // ad-hoc triage helper: vcheck probe parse|format|tc|compile[:<cfg>[:nopipe|all|<name>]] <file>
+        engine::install_panic_hook();
+        let src = std::fs::read_to_string(&args[3]).expect("read file");
+        let what = args[2].clone();
+        let r = engine::guard(|| {
+            use rssl_verif::util::*;
+            if what == "parse" {
+                match parse_src(&src) {
+                    Ok(m) => println!("{:#?}", m),
+                    Err(e) => println!("PARSE ERROR:\n{}", e),
+                }
+            } else if what == "format" {
+                match parse_src(&src) {
+                    Ok(m) => println!("{:?}", rssl_formatter::format(&m, rssl_formatter::Target::Hlsl)),
+                    Err(e) => println!("PARSE ERROR:\n{}", e),
+                }
+            } else if what == "tc" {
+                match typecheck_src(&src) {
+                    Ok(m) => println!("OK {} root definitions", m.root_definitions.len()),
+                    Err(e) => println!("TYPE ERROR:\n{}", e),
+                }
+            } else {
+                let mut it = what.split(':');
+                let _ = it.next();
+                let cfg = Cfg::from_name(it.next().unwrap_or("HlslForDirectX")).unwrap_or(Cfg::Dx);
+                let mode = match it.next() {
+                    None | Some("nopipe") => Mode::NoPipeline,
+                    Some("all") => Mode::All,
+                    Some(n) => Mode::Named(n.to_string()),
+                };
+                println!("{}", render_result(&compile1(&src, cfg, mode)));
+            }
+        });
+        if let Err(p) = r {
+            println!("PANIC {} : {}", p.file, p.message);
+        }
+        return;
+    }
     if args.len() < 3 {
         usage();
     }
